@@ -221,13 +221,16 @@ def families(tier):
     ]
     D = topos.DAGS
     runs = [("a_p_b", 4, 6), ("a_p_b_rev", 0, 6), ("a_p_q_b", 4, 6), ("a_p_dfix_b", 3, 5),
-            ("ab_p_c", 3, 4), ("a_p_bc", 3, 4), ("two_pulls_parallel", 3, 4), ("a0_a_p_b_rev", 3, 4)]
+            ("ab_p_c", 3, 4), ("a_p_bc", 3, 4), ("two_pulls_parallel", 3, 4), ("a0_a_p_b_rev", 3, 4),
+            ("ab_dfix_first_p_c", 3, 4)]
     for name, uq, ut in runs:
         u = uq if q else ut
         if u:
             f = sched.run_family("C20", name, D[name], u, props=["C20", "C01"])
             f["must_cover"] = ["outcome:ok", "provider-asked"]
             fams.append(f)
+    for name in ("a_p_b", "ab_p_c", "ab_dfix_first_p_c", "a_p_dfix_b", "two_pulls_parallel"):
+        fams.append(sched.step_family("C20", name, D[name], props=["C20", "C01", "C02"]))
     ws = [("one_sink", 2, 1, ["mm", "mm"]), ("two_sinks", 2, 2, ["mm", "mm"]),
           ("mixed_units", 2, 1, ["mm", "cm"])]
     if not q:
